@@ -124,7 +124,7 @@ def expected(oracle, pid, layout, contents):
     return exp
 
 
-def build_tensors(layout, contents, gseed, perm_seed=None, expand_query=False):
+def build_tensors(layout, contents, gseed, perm_seed=None, expand_query=False, extreme=False):
     """-> query, key, value, mask (mask True = keep); T at position d of key/value/mask"""
     ks, qs, T, d = layout["ks"], layout["qs"], layout["T"], layout["d"]
     g = torch.Generator().manual_seed(gseed)
@@ -134,6 +134,12 @@ def build_tensors(layout, contents, gseed, perm_seed=None, expand_query=False):
     # garbage everywhere first (large, varied, both signs), then the real content at kept positions
     key = torch.randn(kshape + [fk], generator=g, dtype=DT) * 7 + 3
     value = torch.randn(kshape + [fv], generator=g, dtype=DT) * 50 - 20
+    if extreme:
+        # "replaced by anything": masked scores far above (and below) every kept one -- a softmax taken over all
+        # positions and renormalised afterwards underflows on the kept ones
+        sign = torch.where(torch.rand(kshape + [fk], generator=g) < 0.7, 1.0, -1.0).to(DT)
+        key = sign * (2000.0 + 500.0 * torch.rand(kshape + [fk], generator=g, dtype=DT))
+        value = value * 200.0
     mask = torch.zeros(kshape, dtype=torch.bool)
     pg = torch.Generator().manual_seed(perm_seed) if perm_seed is not None else None
     for i, kc in contents["kcs"]:
@@ -262,6 +268,8 @@ def run_case(ctx, oracle, layout, pid, contents, seed, use_mask=True, replaying=
                 ("permuted", dict(gseed=seed + 1, perm_seed=seed + 2))]
     if list(layout["qs"]) != list(layout["lead"]):
         variants.append(("expanded", dict(gseed=seed + 3, expand_query=True)))
+    if use_mask:
+        variants.append(("garbageX", dict(gseed=seed + 11, extreme=True)))
     first_bad = None
     for name, kw in variants:
         q, k, v, m = build_tensors(layout, contents, **kw)
@@ -281,7 +289,7 @@ def run_case(ctx, oracle, layout, pid, contents, seed, use_mask=True, replaying=
         if kind == "value":
             if first_bad is None and name != "garbageA":
                 # the first run matched the spec: the failure is a dependence on what varied
-                kind = {"garbageB": "masked_content_dependence", "permuted": "permutation_dependence",
+                kind = {"garbageB": "masked_content_dependence", "garbageX": "masked_content_dependence", "permuted": "permutation_dependence",
                         "expanded": "broadcast_differs_from_expand"}[name]
             elif dim < 0:
                 kind = "value_negative_dim"
